@@ -15,6 +15,12 @@ CLAIMS = {
  "C03": (TECH2,
          "Operator kernel add_to_current decided for all real current/value by z3 on the AST translation; the valence x trigger x muted/unscored/suppressed table decided by CrossHair over all paths for N<=2 (quick) / N<=3 (thorough) feedbacks with score literals from a menu covering each documented form; oracle is the exact rational sum.",
          "score literals from a finite menu (formatting realises symbolic floats); reals instead of floats in E2", "DESIGN.md §3 C03"),
+ "C04": (TECH,
+         "With exec replaced by a stub (symbolic printed text, termination object chosen by symbolic bits from 10 handled classes incl. broken __str__/__repr__, SystemExit, RecursionError) CrossHair confirms over all paths, for run/call/evaluate unthreaded and threaded, that the call returns normally, the failure is the sandbox's exception and exactly one triggered runtime feedback of the mapped class is attached; real compile() failures incl. a NUL byte are covered by a second obligation. Which programs produce which termination, student-line locations and name filters are outside the claim.",
+         "exec stub; termination menu is finite; CrossHair/z3 models; threaded obligations run the worker untraced", "DESIGN.md §3 C04"),
+ "C05": (TECH,
+         "Same stub with the menu extended by KeyboardInterrupt, GeneratorExit, a direct BaseException subclass and an internal-fault switch: CrossHair confirms over all paths that after run/call/evaluate returns or raises, sys.stdout, time.sleep and the sys.modules key set are as before and the sandbox's stacks are empty, and (two-step histories) that the next execution captures exactly its own output.",
+         "exec stub; tracer styles and timeouts outside the claim; CrossHair/z3 models", "DESIGN.md §3 C05"),
  "C12": (TECH,
          "With the parser replaced by a stub raising error objects whose position attributes are symbolic within the shapes harvested from CPython on every run, CrossHair confirms over all paths (files <= 3 lines, section offsets <= 2, 3 exception classes) that verify never raises, reports exactly one syntax feedback on CPython's line shifted by the section offset, and stores the parser's tree on acceptance. The parser's own accept/reject decision is CPython's and is not re-verified.",
          "parser stub constrained to harvested shapes; CrossHair/z3 models; harness oracle", "DESIGN.md §3 C12"),
